@@ -814,7 +814,7 @@ impl Prop for C19Prop {
         out
     }
     fn rule(&self) -> String {
-        format!("every case is one explicit document passed to read_graphml_string under one of 3 specs. Case indexes 0..{} enumerate EXHAUSTIVELY every single-point corruption (truncation at every byte, deletion / duplication of every byte, every single-bit flip, every byte replaced by each of <>&\"'=/ and space) of {} fixed base documents; the remaining cases sample documents written by the real writer, the fixed bases and grammar-generated near-GraphML (keys with/without for/id/attr.name, data in node/edge/graph, empty vs start-end elements, comments, CDATA, PIs, DOCTYPE, BOM, prefixes, single quotes, nested/second graphs, odd weight texts) with 0-4 faults (byte-level as above; structural: delete/duplicate/swap a tag, duplicate/delete an attribute, inject entities, replace a weight text - also by 20-140 bytes of mixed ASCII / multi-byte text -, splice two documents; in a quarter of the sampled cases a document on which the reader fails after taking state from it - a weight key, a graph kind, an open edge - is read on the same thread first), plus resource bombs (1e5-deep nesting, 10 MB attribute). Oracle: the call returns (no unwind, no worker death, within the step budget 2e6 + 200 per byte); if Ok(g): an independent quick-xml walk over the same bytes gives declared directedness, node ids and (source,target) list, which fed through the C01 model with the supplied specs must give exactly g's nodes and edges (weights when every weight <data> is a direct child of an <edge>). distinct_nontrivial = distinct documents for which the reader returned a graph that was compared; a sixth of the grammar documents declare the edge weight under two ids", exhaustive_block(), BASES.len())
+        format!("every case is one explicit document passed to read_graphml_string under one of 3 specs. Case indexes 0..{} enumerate EXHAUSTIVELY every single-point corruption (truncation at every byte, deletion / duplication of every byte, every single-bit flip, every byte replaced by each of <>&\"'=/ and space) of {} fixed base documents; the remaining cases sample documents written by the real writer, the fixed bases and grammar-generated near-GraphML (keys with/without for/id/attr.name, data in node/edge/graph, empty vs start-end elements, comments, CDATA, PIs, DOCTYPE, BOM, prefixes, single quotes, nested/second graphs, odd weight texts) with 0-4 faults (byte-level as above; structural: delete/duplicate/swap a tag, duplicate/delete an attribute, inject entities, replace a weight text - also by 20-140 bytes of mixed ASCII / multi-byte text, by numerals at the boundaries of every integer width (2^32 .. 2^128) and by 19-400 random digits -, splice two documents; in a quarter of the sampled cases a document on which the reader fails after taking state from it - a weight key, a graph kind, an open edge - is read on the same thread first), plus resource bombs (1e5-deep nesting, 10 MB attribute). Oracle: the call returns (no unwind, no worker death, within the step budget 2e6 + 200 per byte); if Ok(g): an independent quick-xml walk over the same bytes gives declared directedness, node ids and (source,target) list, which fed through the C01 model with the supplied specs must give exactly g's nodes and edges (weights when every weight <data> is a direct child of an <edge>). distinct_nontrivial = distinct documents for which the reader returned a graph that was compared; a sixth of the grammar documents declare the edge weight under two ids", exhaustive_block(), BASES.len())
     }
     fn assumptions(&self) -> Vec<String> {
         vec![
